@@ -84,7 +84,15 @@ def judge(case):
     defn = case["def"]
     lines = Z.render(defn)
     if case.get("xprops"):      # extension properties inside the definition (X-LIC-LOCATION and the like): ignored by the semantics
-        lines = lines[:2] + [f"X-LIC-LOCATION:{defn['tzid']}", "X-VERIF;X-P=1:anything"][:case["xprops"]] + lines[2:]
+        lines = lines[:2] + [f"X-LIC-LOCATION:{defn['tzid']}", "X-VERIF;X-P=1:anything"][:min(case["xprops"], 2)] + lines[2:]
+        if case["xprops"] >= 3:     # ... and inside the observances, short or long enough to be folded when the library writes them
+            n = {3: 5, 4: 75, 5: 76, 6: 77, 7: 200}[case["xprops"]] - len("X-OBS-NOTE:")
+            out_ = []
+            for ln in lines:
+                out_.append(ln)
+                if ln in ("BEGIN:STANDARD", "BEGIN:DAYLIGHT"):
+                    out_.append("X-OBS-NOTE:" + "n" * max(1, n))
+            lines = out_
     text = "\r\n".join(lines) + "\r\n"
     ons, ts = instants(defn, case.get("extra", []))
     fails = []
@@ -101,7 +109,17 @@ def judge(case):
     for provider in sut.PROVIDERS:
         sut.reset(provider)
         try:
-            tz = Timezone.from_ical(text).to_tz(tzp, lookup_tzid=False)
+            if case.get("private_tzp"):
+                # a provider object of the caller's own, of the other kind than the process-wide one, is given the definition
+                from icalendar.timezone import TZP
+                sut.reset("pytz" if provider == "zoneinfo" else "zoneinfo")
+                own = TZP(provider)
+                own.cache_timezone_component(Timezone.from_ical(text))
+                tz = own.timezone(defn["tzid"])
+                if tz is None:
+                    raise AssertionError("the provider object does not know the zone it was given")
+            else:
+                tz = Timezone.from_ical(text).to_tz(tzp, lookup_tzid=False)
         except Exception as e:
             fails.append(Failure(f"C12.build/{provider}", f"to_tz-raises/{provider}/" + exc_signature(e), f"{e!r} text={text!r}"[:500]))
             continue
@@ -239,6 +257,10 @@ def info(case):
         return {"nontrivial": len(parses) >= 2, "classes": classes}
     defn = case["def"]
     classes = ["style:" + case["style"]]
+    if case.get("private_tzp"):
+        classes.append("own-provider-object-of-the-other-kind")
+    if case.get("xprops", 0) >= 4:
+        classes.append("folded-extension-property-inside-observance")
     if any(o.get("rrule") and o["rrule"].get("until") for o in defn["obs"]):
         classes.append("has-until")
     if any(o.get("rrule") and o["rrule"].get("count") for o in defn["obs"]):
@@ -369,7 +391,8 @@ def definitions(draw):
     assume(len(times) == len(set(times)))
     assume(_representable(defn))
     return {"kind": "def", "style": style, "unchained": unchained, "def": defn,
-            "extra": draw(st.lists(st.integers(0, 2 ** 31), max_size=12)), "xprops": draw(st.sampled_from([0, 0, 0, 1, 2]))}
+            "extra": draw(st.lists(st.integers(0, 2 ** 31), max_size=12)), "xprops": draw(st.sampled_from([0, 0, 0, 1, 2, 3, 4, 5, 6, 7])),
+            "private_tzp": draw(st.sampled_from([False, False, False, True]))}
 
 
 @st.composite
